@@ -205,7 +205,7 @@ func TestRoutineFree(t *testing.T) {
 		wg.Wait()
 		// quiet, then no context: nobody is inside the function any more
 		clear()
-		deadline := time.Now().Add(3 * time.Second)
+		deadline := time.Now().Add(5 * time.Second)
 		for f.inside.Load() != 0 && f.bad.Load() == nil {
 			if time.Now().After(deadline) {
 				f.fail(6, "the container is quiet and has no context, but an instance is still inside the managed function (its context was never cancelled)")
